@@ -188,7 +188,7 @@ func (m *rlMon) history(nops int, allowAdmin bool) {
 	m.epoch = uint64(r.Intn(20))
 	m.do(M{"f": "reset", "engine": "ratelimit", "epochNum": U(m.epoch), "epochStart": I(m.start), "epochDur": I(hour), "sup": m.supplies()})
 	sendSeq, recvSeq := map[string]uint64{}, map[string]uint64{}
-	var sent, asyncs []monPkt
+	var sent, asyncs, finished []monPkt
 
 	mkPkt := func(dir string) (M, string, string) {
 		ch := Pick(r, monChans)
@@ -307,13 +307,14 @@ func (m *rlMon) history(nops int, allowAdmin bool) {
 			// an error acknowledgement (application's or the limiter's) must leave everything unchanged:
 			// the reference account was not touched, so check() enforces it.
 			m.check(in, out, nil)
-		case w < 72: // terminal outcome of a sent packet (exactly once per packet: C03)
+		case w < 70: // terminal outcome of a sent packet (exactly once per packet: C03)
 			if len(sent) == 0 {
 				continue
 			}
 			j := r.Intn(len(sent))
 			pk := sent[j]
 			sent = append(sent[:j], sent[j+1:]...)
+			finished = append(finished, pk)
 			in := cp(pk.req)
 			success := false
 			if r.Chance(0.35) {
@@ -344,6 +345,19 @@ func (m *rlMon) history(nops int, allowAdmin bool) {
 				}
 			}
 			m.check(in, out, stale)
+		case w < 74: // a terminal failure delivered a second time: "each packet undone at most once"
+			if len(finished) == 0 {
+				continue
+			}
+			pk := Pick(r, finished)
+			in := cp(pk.req)
+			if r.Chance(0.5) {
+				in["f"] = "timeout"
+			} else {
+				in["f"], in["success"] = "ack", false
+			}
+			out := m.do(in)
+			m.check(in, out, nil) // reference account untouched
 		case w < 80: // async acknowledgement written later
 			if len(asyncs) == 0 {
 				continue
@@ -478,6 +492,7 @@ func rlMonitor(r *Rng, n int, report func(Viol)) {
 	m := &rlMon{r: r, e: newRlExec(), report: report}
 	m.witnessF4(false)
 	m.witnessF4(true)
+	rlStackMonitor(r.Fork(), report)
 	for i := 0; i < n && m.nviol < 6; i++ {
 		m.history(20+r.Intn(60), i%3 != 0)
 	}
